@@ -3,7 +3,7 @@ import session, slicegrid
 
 ID = 'C03'
 PROPERTY_FILE = 'Autobean/Properties/C03.lean'
-LEAN_TARGETS = ['Autobean.Properties.C03']
+LEAN_TARGETS = ['Autobean.Properties.C03', 'Autobean.Obligations.Schema']
 RULE = ('random slot edits (optional/required raw and value properties, every MutableSequence/MutableMapping method of raw '
         'wrappers, filtered views, string views and meta mappings with indices/slices from -n-2..n+2 and steps '
         '1,2,3,-1,-2) in generated ledgers and test-corpus documents; frame oracle on the real store: tokens outside the '
